@@ -41,10 +41,17 @@ def _match(a, b, k):
         raise NotImplementedError
 
 
+_ASCII_UPPER = {c: c - 32 for c in range(ord("a"), ord("z") + 1)}
+
+
+def _ascii_casemap(s: str) -> str:
+    # RFC 4790, section 9.2.1: only a-z are folded; other characters,
+    # including non-ASCII ones, are left alone (and are not an error).
+    return s.translate(_ASCII_UPPER)
+
+
 collations: dict[str, Callable[[str, str, str], bool]] = {
-    "i;ascii-casemap": lambda a, b, k: _match(
-        a.encode("ascii").upper(), b.encode("ascii").upper(), k
-    ),
+    "i;ascii-casemap": lambda a, b, k: _match(_ascii_casemap(a), _ascii_casemap(b), k),
     "i;octet": lambda a, b, k: _match(a, b, k),
     # TODO(jelmer): Follow all rules as specified in
     # https://datatracker.ietf.org/doc/html/rfc5051
